@@ -66,6 +66,7 @@ func main() {
 	noSolve := flag.Bool("nosolve", false, "generate queries only")
 	perReturn := flag.Bool("perreturn", false, "debug: one postcondition obligation per return statement")
 	only := flag.String("only", "", "only obligations whose name contains this")
+	modsetOf := flag.String("modset", "", "debug: print the computed modifies set of functions whose key contains this")
 	overlayF := flag.String("overlay", "", "JSON file mapping source paths to replacement files (mutation self-tests)")
 	flag.Parse()
 	t0 := time.Now()
@@ -109,6 +110,14 @@ func main() {
 		fatal(err)
 	}
 	e.perReturn = *perReturn
+	if *modsetOf != "" {
+		for k := range e.fnByKey {
+			if strings.Contains(k, *modsetOf) {
+				fmt.Println(k, e.modSet(k, e.contracts.Fns[k]))
+			}
+		}
+		return
+	}
 	out.LoadS = time.Since(t0).Seconds()
 	want := map[string]bool{}
 	for _, p := range strings.Split(*propsF, ",") {
